@@ -200,20 +200,22 @@ def holder_abs_proof_and_refinement(n, workers=8):
     commitment numbers) and that it implies C01 and C02; (2) TLC checks that Channel.tla with the
     ghost monitor "all" refines HolderAbs (every step is a HolderAbs step or a stutter)."""
     t0 = time.time()
-    rc, out = vlib.sh(["tlapm", "--threads", "8", "--cleanfp", "HolderAbs.tla"], cwd=SPEC, timeout=1200)
-    m = re.search(r"All (\d+) obligations? proved", out)
-    if not m:
-        raise vlib.ToolError("tlapm did not prove HolderAbs.tla:\n" + out[-3000:])
-    obligations = int(m.group(1))
+    obligations = 0
+    for mod in ("HolderAbs.tla", "CpAbs.tla"):
+        rc, out = vlib.sh(["tlapm", "--threads", "8", "--cleanfp", mod], cwd=SPEC, timeout=1200)
+        m = re.search(r"All (\d+) obligations? proved", out)
+        if not m:
+            raise vlib.ToolError("tlapm did not prove %s:\n%s" % (mod, out[-3000:]))
+        obligations += int(m.group(1))
     d = os.path.join(WORK, "chan-a-refine")
     os.makedirs(d, exist_ok=True)
     cfg = os.path.join(d, "refine.cfg")
     vlib.write_cfg(cfg, "SPECIFICATION Spec\nCONSTANTS\n  N = %d\n  RevokeChecksClosed = %s\n  AtomicRevocation = %s\n"
                         "  StartPhase = \"ready\"\n  Mon = \"all\"\nCONSTRAINT Bound\nVIEW View\nINVARIANTS C01 C02\n"
-                        "PROPERTIES RefinesHolderAbs\nCHECK_DEADLOCK FALSE\n" % (
+                        "PROPERTIES RefinesHolderAbs RefinesCpAbs\nCHECK_DEADLOCK FALSE\n" % (
                             n, _tla_bool(SWITCHES["revokeChecksClosed"]), _tla_bool(SWITCHES["atomicRevocation"])))
     r = vlib.tlc("MC_Channel", cfg, workers=workers, timeout=3000, name="mc-channel-refine")
     return {"tlaps_obligations": obligations, "tlaps_discharged": obligations,
             "refinement_N": n, "refinement_states": r["distinct"], "refinement_transitions": r["states"],
             "refinement_violated": r["violated"], "wall_s": round(time.time() - t0, 1),
-            "checker_cmd": "tlapm --threads 8 --cleanfp spec/HolderAbs.tla ; tlc MC_Channel (PROPERTIES RefinesHolderAbs)"}
+            "checker_cmd": "tlapm --threads 8 --cleanfp spec/HolderAbs.tla spec/CpAbs.tla ; tlc MC_Channel (PROPERTIES RefinesHolderAbs RefinesCpAbs)"}
